@@ -41,7 +41,9 @@ Dom(fn) ==
     [] fn = "bidib_send_vendor_set" -> <<{0, 1, 59, 60, 119, 120}, {Ramp(120)}, {0, 1, 59, 60, 119, 120}, {Ramp(120), Rep(253, 120)}>>
     [] fn = "bidib_send_vendor_get" -> <<{0, 1, 119, 120, 121, 255}, {Ramp(121), Rep(254, 121)}>>
     [] fn = "bidib_send_string_set" -> <<{0, 255}, {0, 255}, {0, 1, 117, 118, 119, 255}, {Ramp(119), Rep(253, 119)}>>
-    [] fn = "bidib_send_fw_update_op_data" -> <<{0, 1, 119, 120, 121, 122, 255}, {Ramp(122), [i \in 1..122 |-> IF i % 5 = 0 THEN 32 ELSE IF i % 7 = 0 THEN 10 ELSE 58]}>>
+    [] fn = "bidib_send_fw_update_op_data" -> <<{0, 1, 119, 120, 121, 122, 255}, {Ramp(122), [i \in 1..122 |-> IF i % 5 = 0 THEN 32 ELSE IF i % 7 = 0 THEN 10 ELSE 58],
+                                                           \* every control / blank character: only 0x20 0x09 0x0D 0x0A are "white"
+                                                           [i \in 1..122 |-> IF i <= 34 THEN i - 1 ELSE 58]}>>
     [] fn = "bidib_send_bm_get_range" -> <<{0, 7, 8, 248, 255}, {0, 7, 8, 248, 255}>>
     [] fn = "bidib_send_bm_mirror_multiple" -> <<{0, 4, 8, 248}, {0, 7, 8, 16, 120, 128, 129, 136, 255}, {Ramp(17), Rep(254, 17)}>>
     [] fn = "bidib_send_bm_addr_get_range" -> <<{0, 1, 128, 255}, {0, 1, 128, 255}>>
